@@ -895,6 +895,8 @@ impl Aml for Method<'_> {
     fn to_aml_bytes(&self, sink: &mut dyn AmlSink) {
         let mut bytes = Vec::new();
         self.path.to_aml_bytes(&mut bytes);
+        // ArgCount is a 3-bit field
+        assert!(self.args <= 7);
         let flags: u8 = (self.args & 0x7) | ((self.serialized as u8) << 3);
         bytes.push(flags);
         for child in &self.children {
